@@ -14,10 +14,12 @@ import (
 	"net/http/httptest"
 	"net/url"
 	"os"
+	"path/filepath"
 	"regexp"
 	"sort"
 	"strconv"
 	"strings"
+	"time"
 
 	"github.com/fullstorydev/emulators/storage/gcsemu"
 
@@ -148,6 +150,8 @@ func (o *Op) Line() string {
 		return fmt.Sprintf("gcs listall %s %s %s %d", hs(o.B), hs(o.Prefix), hs(o.Delim), o.Max)
 	case "reopen":
 		return "gcs reopen"
+	case "plant":
+		return fmt.Sprintf("gcs plant %s %s %s", hs(o.B), hs(o.N), hx(o.Content))
 	}
 	panic("gcs op kind " + o.Kind)
 }
@@ -777,6 +781,22 @@ func (e *Env) Exec(cop core.Op) (resp string) {
 	case "reopen":
 		e.Reopen()
 		return "status 200"
+	case "plant":
+		// a content file written into the store's directory by hand, without a sidecar
+		if e.store != "file" {
+			return "plant: file store only"
+		}
+		f := filepath.Join(e.dir, o.B, filepath.FromSlash(o.N))
+		if err := os.MkdirAll(filepath.Dir(f), 0777); err != nil {
+			return "plant: " + err.Error()
+		}
+		os.Remove(f + ".emumeta")
+		if err := os.WriteFile(f, o.Content, 0666); err != nil {
+			return "plant: " + err.Error()
+		}
+		now := time.Now()
+		os.Chtimes(f, now, now)
+		return "planted"
 	}
 	panic("gcs exec kind " + o.Kind)
 }
